@@ -141,6 +141,21 @@ def build(tier="quick", seed=0):
     pack.add(Obligation("C02.read.stream", lambda tier: prove_paths("C02.read.stream", th_reader_frame, lambda p: (p.value[0] == [("c02_rec", 7, "v")] and p.value[1] == "stop" and options_ok(p.value[2], "unpackb-options"),
                         f"a stream built from the published format was read as {p.value[0]!r}, end {p.value[1]!r} (or unpackb options differ)")), replay=lambda w: {"call": "c02_golden", "args": {}}, functions=FU))
 
+    def th_reader_concat():
+        # two streams put one behind the other (cat a b, appended files, multi-member archives): each begins with the header frame; the reader decodes the records of both
+        D = it.call(RD, ["c02/rec", list(FIELDS)], {})
+        name, h = ident(D)
+        body = blob(W.descriptor_tree(blob, name, FIELDS))
+        recs = [blob(W.record_tree(blob, name, h, rec_values(("leaf", k), "v"))) for k in (7, 8, 9)]
+        hdr = [HEADER_FRAME[:4], HEADER_FRAME[4:]]
+        segs = [HEADER_FRAME, length_prefix(it, body), body, length_prefix(it, recs[0]), recs[0]] + hdr + [length_prefix(it, recs[1]), recs[1]] + hdr + [length_prefix(it, body), body, length_prefix(it, recs[2]), recs[2]] + hdr
+        rd = it.call(st.g["RecordStreamReader"], [AbsFile(it, segs)], {})
+        out, end = drain(it, it.call(it.getattr_(rd, "__iter__"), [], {}))
+        return [(it.type_name(o), it.unbase(o.attrs.get("n")) if isinstance(o, PObj) else repr(o)[:30]) for o in out], end
+
+    pack.add(Obligation("C02.read.stream[several streams one behind the other: a header frame in front of each]", lambda tier: prove_paths("C02.read.stream[several streams one behind the other: a header frame in front of each]", th_reader_concat,
+                        lambda p: (p.value == ([("c02_rec", 7), ("c02_rec", 8), ("c02_rec", 9)], "stop"), f"three conforming streams holding records 7, 8, 9 were read as {p.value!r}")), replay=lambda w: {"call": "c02_concat", "args": {}}, functions=FU))
+
     # ---------------------------------------------------------------- envelopes: writer against the format
     def th_pack_record(rng, inr):
         def th():
@@ -157,6 +172,23 @@ def build(tier="quick", seed=0):
         if p.kind == "raise":
             return exc_name(p) in ("UnicodeEncodeError",), f"pack raised {exc_text(p)}"
         return tree_eq(it, p.value[0], p.value[1])
+
+    def th_pack_ignoring():
+        # what is written is the record, whatever the comparison configuration (ignored fields concern == and hash only)
+        D = it.call(RD, ["c02/rec", list(FIELDS)], {})
+        r = mkrec(D, SInt(x), SStr(sv))
+        it.assume(INR)
+        saved = base.g["IGNORE_FIELDS_FOR_COMPARISON"]
+        it.call(base.g["set_ignored_fields_for_comparison"], [["_generated", "s", "l"]], {})
+        try:
+            got = pack_with_fresh_packer(it, pk, r)
+        finally:
+            base.g["IGNORE_FIELDS_FOR_COMPARISON"] = saved
+        name, h = ident(D)
+        return got.tree, W.record_tree(blob, name, h, rec_values(int_value_tree(x), SStr(sv)))
+
+    pack.add(Obligation("C02.pack[record, while fields are ignored for comparison]", lambda tier: prove_paths("C02.pack[record, while fields are ignored for comparison]", th_pack_ignoring, judge_tree,
+                        lambda m_, p: {"x": model_value(m_, x), "s": model_value(m_, sv)}, allow_raise=None), replay=lambda w: {"call": "c02_ignoring", "args": {"x": w.get("x") if isinstance(w.get("x"), int) else 0}}, functions=FU))
 
     for nm, rng, inr in (("native int", INR, True), ("big positive int", x > W.INT_MAX, False), ("big negative int", x < W.INT_MIN, False)):
         name = f"C02.pack[record, {nm}]"
